@@ -153,11 +153,15 @@ func collectIdxOpsEnv(p *Prog, fd *ast.FuncDecl, env map[types.Object]idxBind, s
 								record(src, dst, "init", s.Pos(), s)
 								continue
 							}
-							q := qualName(calleeOf(info, call))
-							if (strings.Contains(strings.ToLower(q), "filter") || q == "slices.DeleteFunc") && key != nil {
-								record(src, dst, "filter-key", s.Pos(), s)
-								continue
-							}
+						}
+						// the slot is replaced by a value computed from its own previous content (elements dropped):
+						// a removal of this file's share
+						if key != nil && derivesFromSlot(info, fd, rhs, func(e ast.Expr) bool {
+							f, ok := recvField(e)
+							return ok && f == dst
+						}, 0) {
+							record(src, dst, "filter-key", s.Pos(), s)
+							continue
 						}
 						if key == nil {
 							record(src, dst, "assign", s.Pos(), s)
@@ -250,6 +254,103 @@ func collectIdxOpsEnv(p *Prog, fd *ast.FuncDecl, env map[types.Object]idxBind, s
 	}
 	visit(fd.Body, src0)
 	return ops
+}
+
+// derivesFromSlot: e mentions the slot (isSlot), or is a local variable some definition of which does
+// (transitively; `kept = append(kept, x)` with x ranging over a deriving local counts).
+func derivesFromSlot(info *types.Info, fd *ast.FuncDecl, e ast.Expr, isSlot func(ast.Expr) bool, depth int) bool {
+	if depth > 4 {
+		return false
+	}
+	found := false
+	ast.Inspect(e, func(x ast.Node) bool {
+		if ex, ok := x.(ast.Expr); ok && !found {
+			switch ex.(type) {
+			case *ast.SelectorExpr, *ast.IndexExpr:
+				if isSlot(ex) {
+					found = true
+					return false
+				}
+			}
+		}
+		return !found
+	})
+	if found {
+		return true
+	}
+	// locals
+	var locals []types.Object
+	ast.Inspect(e, func(x ast.Node) bool {
+		if id, ok := x.(*ast.Ident); ok {
+			if v, ok := info.Uses[id].(*types.Var); ok && !v.IsField() && v.Pos() >= fd.Pos() && v.Pos() <= fd.End() {
+				locals = append(locals, v)
+			}
+		}
+		return true
+	})
+	for _, v := range locals {
+		derives := false
+		ast.Inspect(fd.Body, func(x ast.Node) bool {
+			switch n := x.(type) {
+			case *ast.AssignStmt:
+				for i, l := range n.Lhs {
+					id, ok := l.(*ast.Ident)
+					if !ok || (info.Defs[id] != v && info.Uses[id] != v) {
+						continue
+					}
+					var r ast.Expr
+					if len(n.Rhs) == len(n.Lhs) {
+						r = n.Rhs[i]
+					} else if len(n.Rhs) == 1 {
+						r = n.Rhs[0]
+					}
+					if r == nil {
+						continue
+					}
+					// avoid trivial self reference `v = append(v, ...)`: look at the other operands
+					if derivesExcluding(info, fd, r, v, isSlot, depth+1) {
+						derives = true
+					}
+				}
+			case *ast.RangeStmt:
+				for _, kv := range []ast.Expr{n.Key, n.Value} {
+					if kv != nil && info.Defs[identOf(kv)] == v && derivesFromSlot(info, fd, n.X, isSlot, depth+1) {
+						derives = true
+					}
+				}
+			}
+			return true
+		})
+		if derives {
+			return true
+		}
+	}
+	return false
+}
+
+func derivesExcluding(info *types.Info, fd *ast.FuncDecl, r ast.Expr, self types.Object, isSlot func(ast.Expr) bool, depth int) bool {
+	// r with occurrences of `self` ignored
+	found := false
+	ast.Inspect(r, func(x ast.Node) bool {
+		if found {
+			return false
+		}
+		if id, ok := x.(*ast.Ident); ok && info.Uses[id] == self {
+			return false
+		}
+		if ex, ok := x.(ast.Expr); ok {
+			if _, isCall := ex.(*ast.CallExpr); !isCall {
+				if _, isId := ex.(*ast.Ident); isId || isSlot(ex) {
+					if derivesFromSlot(info, fd, ex, isSlot, depth) {
+						found = true
+						return false
+					}
+				}
+			}
+		}
+		return true
+	})
+	return found
 }
 
 // firstIndexAny returns the outermost index expression of an lvalue like idx.G[k], idx.G[k][j] or counts[k].
@@ -588,6 +689,67 @@ func ruleC12Clear(c *Ctx) {
 			return true
 		})
 	}
+	// the same memo idiom behind a helper that is handed the address of the field: `if *p != nil { return *p }`
+	// with p a parameter; the fields are the ones whose address is passed at the helper's call sites
+	for _, f := range pk.Syntax {
+		for _, d := range f.Decls {
+			fd, ok := d.(*ast.FuncDecl)
+			if !ok || fd.Body == nil || fd.Type.Params == nil {
+				continue
+			}
+			var params []types.Object
+			for _, fl := range fd.Type.Params.List {
+				for _, n := range fl.Names {
+					params = append(params, info.Defs[n])
+				}
+			}
+			memoParam := -1
+			for _, g := range guardsIn(fd.Body) {
+				be, ok := ast.Unparen(g.Cond).(*ast.BinaryExpr)
+				if !ok || be.Op != token.NEQ || identOf(be.Y).Name != "nil" {
+					continue
+				}
+				star, ok := ast.Unparen(be.X).(*ast.StarExpr)
+				if !ok {
+					continue
+				}
+				po := info.Uses[identOf(star.X)]
+				for i, q := range params {
+					if q != nil && q == po {
+						for _, st := range g.Body {
+							if r, ok := st.(*ast.ReturnStmt); ok && len(r.Results) == 1 {
+								if rs, ok := ast.Unparen(r.Results[0]).(*ast.StarExpr); ok && info.Uses[identOf(rs.X)] == po {
+									memoParam = i
+								}
+							}
+						}
+					}
+				}
+			}
+			if memoParam < 0 {
+				continue
+			}
+			fobj := info.Defs[fd.Name]
+			for _, f2 := range pk.Syntax {
+				ast.Inspect(f2, func(x ast.Node) bool {
+					call, ok := x.(*ast.CallExpr)
+					if !ok || calleeOf(info, call) != fobj || memoParam >= len(call.Args) {
+						return true
+					}
+					if u, ok := ast.Unparen(call.Args[memoParam]).(*ast.UnaryExpr); ok && u.Op == token.AND {
+						if se, ok := ast.Unparen(u.X).(*ast.SelectorExpr); ok {
+							if t := info.TypeOf(se.X); t != nil && strings.HasSuffix(types.TypeString(t, nil), "workspace.Workspace") {
+								if _, isMap := info.TypeOf(se).Underlying().(*types.Map); isMap {
+									cacheFields[se.Sel.Name] = true
+								}
+							}
+						}
+					}
+					return true
+				})
+			}
+		}
+	}
 	c.census("C12-CLEAR", "memoised derived caches of the workspace", len(cacheFields), 3)
 	if resolvedField == "" {
 		c.undecided("C12-CLEAR", "workspace.Workspace", "resolved tree field", token.NoPos, "no field of type *include.ResolvedJournal")
@@ -769,22 +931,7 @@ func flagSetWithMutation(info *types.Info, fd *ast.FuncDecl, flag types.Object, 
 func ruleC12Refresh(c *Ctx) {
 	pk := c.P.ByRel["internal/workspace"]
 	info := pk.TypesInfo
-	// role: the refresh function = Workspace method with a condition-less `for` loop (fixpoint)
-	var refresh *ast.FuncDecl
-	var loop *ast.ForStmt
-	for _, f := range pk.Syntax {
-		for _, d := range f.Decls {
-			fd, ok := d.(*ast.FuncDecl)
-			if !ok || fd.Recv == nil || recvTypeName(fd) != "Workspace" || fd.Body == nil {
-				continue
-			}
-			for _, st := range fd.Body.List {
-				if fs, ok := st.(*ast.ForStmt); ok && fs.Cond == nil && fs.Init == nil {
-					refresh, loop = fd, fs
-				}
-			}
-		}
-	}
+	refresh, loop := findRefreshFixpoint(c.P)
 	if refresh == nil {
 		c.undecided("C12-REFRESH", "workspace.Workspace", "include-tree refresh fixpoint", token.NoPos, "no Workspace method with a fixpoint loop found")
 		return
@@ -859,6 +1006,74 @@ func ruleC12Refresh(c *Ctx) {
 		})
 	}
 	c.census("C12-REFRESH", "call sites of the include-tree refresh", nSites, 1)
+}
+
+// findRefreshFixpoint (role): the method of the workspace type that re-establishes the include tree: it has
+// a non-range `for` loop in whose body a set (a map) is computed by a call on the receiver and handed to
+// further calls on the receiver.
+func findRefreshFixpoint(p *Prog) (*ast.FuncDecl, *ast.ForStmt) {
+	pk := p.ByRel["internal/workspace"]
+	if pk == nil {
+		return nil, nil
+	}
+	info := pk.TypesInfo
+	var refresh *ast.FuncDecl
+	var loop *ast.ForStmt
+	for _, f := range pk.Syntax {
+		for _, d := range f.Decls {
+			fd, ok := d.(*ast.FuncDecl)
+			if !ok || fd.Recv == nil || fd.Body == nil {
+				continue
+			}
+			recv := recvObj(info, fd)
+			onRecv := func(call *ast.CallExpr) bool {
+				se, ok := ast.Unparen(call.Fun).(*ast.SelectorExpr)
+				if !ok {
+					return false
+				}
+				id, ok := ast.Unparen(se.X).(*ast.Ident)
+				return ok && recv != nil && info.Uses[id] == recv
+			}
+			ast.Inspect(fd.Body, func(x ast.Node) bool {
+				fs, ok := x.(*ast.ForStmt)
+				if !ok {
+					return true
+				}
+				sets := map[types.Object]bool{}
+				passed := false
+				ast.Inspect(fs.Body, func(y ast.Node) bool {
+					switch n := y.(type) {
+					case *ast.AssignStmt:
+						if len(n.Lhs) == 1 && len(n.Rhs) == 1 {
+							if call, ok := ast.Unparen(n.Rhs[0]).(*ast.CallExpr); ok && onRecv(call) {
+								if t := info.TypeOf(n.Rhs[0]); t != nil {
+									if _, isMap := t.Underlying().(*types.Map); isMap {
+										if o := info.Defs[identOf(n.Lhs[0])]; o != nil {
+											sets[o] = true
+										}
+									}
+								}
+							}
+						}
+					case *ast.CallExpr:
+						if onRecv(n) {
+							for _, a := range n.Args {
+								if sets[info.Uses[identOf(a)]] {
+									passed = true
+								}
+							}
+						}
+					}
+					return true
+				})
+				if passed {
+					refresh, loop = fd, fs
+				}
+				return true
+			})
+		}
+	}
+	return refresh, loop
 }
 
 // elementwiseListGuard: cond is `!eq(a, b)` where eq is slices.Equal / reflect.DeepEqual or a module
